@@ -2,6 +2,7 @@ import PdfModel.Core.Proto
 import PdfModel.Model.Content
 import PdfModel.Model.ContentF32
 import PdfModel.Model.ContentInline
+import PdfModel.Model.ContentBytes
 import PdfModel.Spec.OperatorTable
 import PdfModel.Spec.ContentEquiv
 
@@ -18,6 +19,10 @@ import PdfModel.Spec.ContentEquiv
   c08.spec <cur x.y|-> <hexkw> <operands joined by ;>
                                          → `none` | `unsupported` | `construct` | `illformed` | `ok <ops>`
   c08.specrun <tokens>                   → `ok <ops>` | `none`   (Spec.specRun on the statements)
+  c08.bser <fmt table> <ops>              → `ok <hex>` | `err` …   byte-level writer (`ContentBytes.serializeBytes`);
+                                            fmt table: `<hex8>=<hex of the Display text>,…` for every real of the ops
+  c08.bparse <allow> <real table> <hex>   → `ok <ops>` | `err` | `unmodelled`   byte-level reader (`ContentBytes.parseBytes`);
+                                            real table: `<hex of a real token>=<hex8>,…` (f32::from_str of the tokens in the data)
   c08.inline <hex of the bytes after ID>   → `ok <hex data> <hex of what follows EI>` | `none`
   c08.real beq|neg|ofint|toint|big|special … → the `f32` instance of `RealOps`
 -/
@@ -398,8 +403,55 @@ def showOptInt : Option Int → String
   | some n => toString n
 
 
+-- byte level (Model/ContentBytes.lean)
+
+def fmtTabOf (s : String) : Option (List (R × List UInt8)) :=
+  if s == "-" then some [] else
+  mapM? (fun e => match e.splitOn "=" with
+    | [k, v] => match parseHex8 k, bytesOfHex v with
+      | some k, some v => some (k, v)
+      | _, _ => none
+    | _ => none) (s.splitOn ",")
+
+def prTabOf (s : String) : Option (List (List UInt8 × R)) :=
+  if s == "-" then some [] else
+  mapM? (fun e => match e.splitOn "=" with
+    | [k, v] => match bytesOfHex k, parseHex8 v with
+      | some k, some v => some (k, v)
+      | _, _ => none
+    | _ => none) (s.splitOn ",")
+
+/-- `Display for f32` as a table handed over by the implementation side (third-party code) -/
+def fmtOf (tab : List (R × List UInt8)) (r : R) : List UInt8 :=
+  match tab.find? (fun e => e.1 == r) with
+  | some e => e.2
+  | none => [63]
+
+def envOf (tab : List (List UInt8 × R)) : PdfLex.Env R :=
+  { parseReal := fun t => (tab.find? (fun e => e.1 == t)).map (·.2)
+    resolveLen := fun _ _ => .err
+    allowMissingEndobj := false
+    decrypt := none
+    fileOffset := 0 }
+
+/-- the oracle of the driver: `ContentBytes.lexOracle`; inline images are not modelled at byte level
+    (`.oof` → `unmodelled`) -/
+def byteOracle : ContentBytes.Oracle := ContentBytes.lexOracle (fun _ _ => .oof)
+
 def handle (args : List String) : String :=
   match args with
+  | ["c08.bser", tab, ops] =>
+    match fmtTabOf tab, opsOf ops with
+    | some tab, some ops => outStr hexOfBytes (ContentBytes.serializeBytes ro (fmtOf tab) ops)
+    | _, _ => "bad-request"
+  | ["c08.bparse", allow, tab, data] =>
+    match boolOf allow, prTabOf tab, bytesOfHex data with
+    | some allow, some tab, some data =>
+      match ContentBytes.parseBytes ro (envOf tab) byteOracle allow data with
+      | .ok ops => "ok " ++ showOps ops
+      | .oof => "unmodelled"
+      | o => o.tag
+    | _, _, _ => "bad-request"
   | ["c08.ser", pd, ops] =>
     match boolOf pd, opsOf ops with
     | some pd, some ops => outStr showToks (serializeOps ro ⟨pd⟩ ops)
